@@ -130,7 +130,18 @@ def run_loop_case(cid, c, seed, tmproot):
                     fmt.format(i=i, k=f["kind"]) + ".mos.xml"
                 if f["kind"] == "dir":
                     os.mkdir(p)
-                elif f["kind"] != "missing":
+                elif f["kind"] == "missing":
+                    # a path that cannot be read, for one of several reasons the operating system gives
+                    how = random.Random("%s|%s|missing|%d" % (seed, cid, i)).choice(["absent", "absent", "notdir", "toolong", "loop"])
+                    if how == "notdir":              # leads through a regular file
+                        with open(p, "w") as fh:
+                            fh.write("<mos/>")
+                        p = os.path.join(p, "inner.mos.xml")
+                    elif how == "toolong":           # a name longer than any file system allows
+                        p = os.path.join(os.path.dirname(p) or ".", "n" * 300 + "%d.mos.xml" % i)
+                    elif how == "loop":              # a symbolic link to itself
+                        os.symlink(os.path.basename(p), p)
+                else:
                     with open(p, "w", encoding="utf-8") as fh:
                         fh.write(file_text(f, g))
                 names.append(p)
@@ -138,9 +149,13 @@ def run_loop_case(cid, c, seed, tmproot):
         else:
             # the same documents as objects of an in-memory bucket (keys in argument order), among unrelated keys
             sfx = ".mos.xml" if mode != "bucket_prefix_suffix" else ".xml"
-            bucket = {"zzz/unrelated.mos.xml": b"<mos/>", "pre/notes.txt": b"not a mos file"}
+            # keys may begin with a slash (then so does the prefix): "/pre/" and "pre/" are different places
+            root = "/" if random.Random("%s|%s|root" % (seed, cid)).random() < 0.3 else ""
+            bucket = {"zzz/unrelated.mos.xml": b"<mos/>", root + "pre/notes.txt": b"not a mos file"}
+            if root:
+                bucket["pre/decoy.mos.xml"] = b"<mos><messageID>1</messageID><roCreate><roID>DECOY</roID></roCreate></mos>"
             for i, f in enumerate(c["files"]):
-                key = "pre/" + fmt.format(i=i, k=f["kind"]) + sfx
+                key = root + "pre/" + fmt.format(i=i, k=f["kind"]) + sfx
                 bucket[key] = file_text(f, g).encode("utf-8")
                 names.append(key)
             collection.install_fake_s3(collection.FakeS3({"bkt": bucket}, page_size=1))
@@ -148,7 +163,7 @@ def run_loop_case(cid, c, seed, tmproot):
             if mode != "none":
                 argv += ["-b", "bkt"]
             if mode in ("bucket_prefix", "bucket_prefix_suffix"):
-                argv += ["-p", "pre/"]
+                argv += ["-p", root + "pre/"]
             if mode == "bucket_prefix_suffix":
                 argv += ["-s", ".xml"]
             if mode == "bucket_key":
@@ -213,8 +228,11 @@ def run_merge_case(cid, c, want_rc, seed, tmproot):
             argv = ["merge", "-f"] + paths
         else:
             sfx = ".mos.xml" if mode != "bucket_prefix_suffix" else ".xml"
-            pre = "" if mode == "bucket_only" else "pre/"
+            root = "/" if (mode != "bucket_only" and random.Random("%s|%s|root" % (seed, cid)).random() < 0.3) else ""
+            pre = "" if mode == "bucket_only" else root + "pre/"
             bucket = {}
+            if root:           # the same documents' un-rooted namesake holds something else
+                bucket["pre/decoy%s" % sfx] = b"<mos><messageID>1</messageID><roCreate><roID>DECOY</roID></roCreate></mos>"
             if mode != "bucket_only":
                 bucket["zzz/unrelated%s" % sfx] = b"<mos><messageID>1</messageID><roCreate><roID>X</roID></roCreate></mos>"
             for n, i in enumerate(order):
@@ -223,7 +241,7 @@ def run_merge_case(cid, c, want_rc, seed, tmproot):
             collection.install_fake_s3(collection.FakeS3({"bkt": bucket}, page_size=2))
             argv = ["merge"] + ([] if mode == "none" else ["-b", "bkt"])
             if mode in ("bucket_prefix", "bucket_prefix_suffix"):
-                argv += ["-p", "pre/"]
+                argv += ["-p", pre]
             if mode == "bucket_prefix_suffix":
                 argv += ["-s", ".xml"]
         argv += (["-i"] if c["allow"] else []) + (["-n"] if c["nonstrict"] else [])
